@@ -618,7 +618,7 @@ func writeReplay(vdir, prop string, o *Oblig, env *Env, repo string, u *Unit) re
 			rr = runReplayTest(repo, src)
 		}
 	}
-	if safetyKinds[o.Kind] && o.Result == "sat" && u != nil {
+	if safetyKinds[o.Kind] && o.Result != "unsat" && u != nil {
 		if src, ok := modelReplayTest(env, u, o); ok {
 			rr = runReplayTest(repo, src)
 		}
